@@ -107,7 +107,7 @@ func (w *World) Resolve(parentType string, fd *model.FieldDef, path []interface{
 			return Res{Kind: "thunk", Val: w.defVal(fd.Type, key, args, true)}
 		case "notlist":
 			return Res{Kind: "val", Val: "not-a-list"}
-		case "badleaf", "nan", "inf", "bigint", "badenum", "leafpanic", "nantext", "bigtext", "sernan", "sernilptr":
+		case "badleaf", "nan", "inf", "bigint", "badenum", "leafpanic", "nantext", "inftext", "bigtext", "sernan", "sernilptr":
 			return Res{Kind: "val", Val: w.badLeaf(o.Kind, fd.Type)}
 		}
 	}
@@ -134,6 +134,8 @@ func (w *World) badLeaf(kind string, t model.TypeRef) interface{} {
 		return LeafPanic{M: map[string]int{}}
 	case "nantext":
 		return "NaN" // numeric text that denotes no number: Float has no serialisation for it
+	case "inftext":
+		return []string{"Infinity", "-inf", "+Inf"}[w.h(kind+t.Name, "inftext")%3] // text that strconv reads as an infinity: no Float (or JSON) value
 	case "bigtext":
 		return "3000000000" // numeric text outside 32 bits: no Int serialisation, read as a number or not
 	case "sernan":
@@ -161,7 +163,7 @@ func (w *World) defVal(t model.TypeRef, key string, args map[string]interface{},
 			return nil
 		case "notlist":
 			return "not-a-list"
-		case "badleaf", "nan", "inf", "bigint", "badenum", "leafpanic", "nantext", "bigtext", "sernan", "sernilptr":
+		case "badleaf", "nan", "inf", "bigint", "badenum", "leafpanic", "nantext", "inftext", "bigtext", "sernan", "sernilptr":
 			return w.badLeaf(o.Kind, t)
 		}
 	}
